@@ -1734,7 +1734,8 @@ Qed.
 (* ------------------------------------------------------------------ early cut-off: one more replayed node *)
 Definition same_dep (b1 b2 : bstate) (d : nat) : Prop :=
   match resolve s1 d, resolve s2 d with
-  | Some (j1, _), Some (j2, _) => j1 = j2 /\ rt_ohash (get_rt b2 j1) = rt_ohash (get_rt b1 j1)
+  | Some (j1, t1), Some (j2, t2) => j1 = j2 /\ td_label t1 = td_label t2 /\
+                                    rt_ohash (get_rt b2 j1) = rt_ohash (get_rt b1 j1)
   | None, None => True
   | _, _ => False
   end.
@@ -1746,7 +1747,7 @@ Proof.
   rewrite IH; [|intros d' Hd'; apply Hds; right; exact Hd'].
   pose proof (Hds d (or_introl eq_refl)) as Hd. unfold same_dep in Hd.
   destruct (resolve s1 d) as [[j1 t1]|], (resolve s2 d) as [[j2 t2]|]; try contradiction; [|reflexivity].
-  destruct Hd as [<- Eo]. rewrite Eo. reflexivity.
+  destruct Hd as [<- [El Eo]]. rewrite Eo. unfold dep_contrib. rewrite El. reflexivity.
 Qed.
 
 Lemma same_dep_clean b1 b2 d :
@@ -1755,7 +1756,7 @@ Proof.
   intros Hrel Hd. unfold same_dep, resolve. rewrite <- Hlen.
   destruct (resolve_clean (S (length (s_nodes s1))) d Hd) as [Er Hk]. rewrite Er.
   destruct (resolve_alias (S (length (s_nodes s1))) s1 d) as [[j t]|]; [|exact I].
-  split; [reflexivity|]. destruct (Hrel j (Hk j t eq_refl)) as (_ & _ & Eo). exact Eo.
+  split; [reflexivity|]. split; [reflexivity|]. destruct (Hrel j (Hk j t eq_refl)) as (_ & _ & Eo). exact Eo.
 Qed.
 
 Lemma rel_step_cutoff F1 d l b1 b2 t :
@@ -2300,6 +2301,7 @@ Theorem early_cutoff d td :
   ok_status (rt_status (get_rt F1 d)) ->
   (forall x, In x (td_deps td) -> K x = false \/
       (exists t1 t2, node_at s1 x = Some (NTarget t1) /\ node_at s2 x = Some (NTarget t2) /\
+         td_label t1 = td_label t2 /\
          dep_ok F2 x = true /\ rt_ohash (get_rt F2 x) = rt_ohash (get_rt F1 x))) ->
   (cfg_failfast cfg = false \/ br_ok (build H cfg s2 roots w' (b_cache F1)) = true) ->
   rt_status (get_rt F2 d) = THit.
@@ -2376,15 +2378,15 @@ Proof.
         intros j Hj. apply (R2 j Hj). }
     destruct (rel_step_cutoff cfg s1 s2 sel1 sel2 E K Hmode Hcache edit_sel Hnode Hfiles
                               F1 d l2 B1 B2 td Hnd2 HR HE En Hnc HF1d Hok) as [Hhit _].
-    + intros x Hx. destruct (Hdeps x Hx) as [HKx|(t1 & t2 & Hn1 & Hn2 & Hdok & Hoh)].
+    + intros x Hx. destruct (Hdeps x Hx) as [HKx|(t1 & t2 & Hn1 & Hn2 & Hlab & Hdok & Hoh)].
       * split; [intros Hd1; rewrite (dep_ok_rel B1 B2 x (R1 x HKx)); exact Hd1|].
         apply (same_dep_clean s1 s2 E K Hlen edit_HEK Hnode edit_closed B1 B2 x R1 HKx).
       * unfold same_dep. rewrite (resolve_target s1 x t1 Hn1), (resolve_target s2 x t2 Hn2).
         destruct (in_dec Nat.eq_dec x l1) as [Hx1|Hx1].
         -- split; [intros _; unfold dep_ok; rewrite <- (Hkeep2 x Hx1); exact Hdok|].
-           split; [reflexivity|]. rewrite <- (Hkeep2 x Hx1), <- (Hkeep1 x Hx1). exact Hoh.
+           split; [reflexivity|]. split; [exact Hlab|]. rewrite <- (Hkeep2 x Hx1), <- (Hkeep1 x Hx1). exact Hoh.
         -- split; [unfold dep_ok; rewrite (HB1 x Hx1); discriminate|].
-           split; [reflexivity|]. rewrite (HB1 x Hx1), (HB2 x Hx1). reflexivity.
+           split; [reflexivity|]. split; [exact Hlab|]. rewrite (HB1 x Hx1), (HB2 x Hx1). reflexivity.
     + rewrite EF2', run_cons, (run_other cfg s2 sel2 Hmode); auto.
       * inversion Hnd2; assumption.
       * intros i Hi. apply (fresh_tail cfg s2 sel2 Hmode d l2 B2 Hnd2); [|exact Hi].
@@ -2505,6 +2507,7 @@ Theorem early_cutoff_build (H : str -> str) cfg s1 s2 roots w c (E K : nat -> bo
      the same output hash (e.g. a re-executed edited target reproducing identical outputs) *)
   (forall x, In x (td_deps td) -> K x = false \/
       (exists t1 t2, node_at s1 x = Some (NTarget t1) /\ node_at s2 x = Some (NTarget t2) /\
+         td_label t1 = td_label t2 /\
          (rt_status (get_rt F2 x) = THit \/ rt_status (get_rt F2 x) = TExecuted) /\
          rt_ohash (get_rt F2 x) = rt_ohash (get_rt F1 x))) ->
   (cfg_failfast cfg = false \/ br_ok r2 = true) ->
@@ -2518,7 +2521,7 @@ Proof.
   - apply distinct_labels_fromb_spec. exact Hlab.
   - apply cross_distinctb_spec. exact Hcross.
   - apply wk_le_refl.
-  - intros x Hx. destruct (Hdeps x Hx) as [HK|(t1 & t2 & H1 & H2 & H3 & H4)]; [left; exact HK|].
+  - intros x Hx. destruct (Hdeps x Hx) as [HK|(t1 & t2 & H1 & H2 & HL & H3 & H4)]; [left; exact HK|].
     right. exists t1, t2. repeat split; auto. unfold dep_ok.
     change (build_state H cfg s2 roots (br_world r1) (b_cache (build_state H cfg s1 roots w c))) with F2.
     destruct H3 as [-> | ->]; reflexivity.
@@ -2847,6 +2850,7 @@ Proof.
     | vm_compute; reflexivity | vm_compute; reflexivity
     | reflexivity | reflexivity | reflexivity | right; vm_compute; reflexivity | | left; reflexivity ].
   intros x [<-|[]]. right. exists ta, ta2. split; [reflexivity|]. split; [reflexivity|].
+  split; [reflexivity|].
   split; [right; vm_compute; reflexivity | vm_compute; reflexivity].
 Qed.
 
